@@ -217,7 +217,20 @@ def kf_lines_blank_input(c):
     return b"-l" in c.argv and c.stdin in (b"", eol)
 
 
-KF_CLASSES = {"lines_blank_input": kf_lines_blank_input}
+def _valid_utf8(b):
+    try:
+        b.decode("utf-8")
+        return True
+    except UnicodeDecodeError:
+        return False
+
+
+def kf_lines_invalid_utf8(c):
+    """line mode on an input that is not valid UTF-8"""
+    return b"-l" in c.argv and not _valid_utf8(c.stdin)
+
+
+KF_CLASSES = {"lines_blank_input": kf_lines_blank_input, "lines_invalid_utf8": kf_lines_invalid_utf8}
 
 
 PROPS["C01"] = dict(
